@@ -299,7 +299,7 @@ theorem relative_to_explicit (oka : Grammar.OkAuth G) (we : Grammar.OkWE G) (a b
     (ha : Matches G.reference a) (hb : Matches G.reference b)
     (hsch : (split a).scheme = (split b).scheme)
     (haa : (split a).authority = some aa) (hab : (split b).authority = some ab) (hauth : authKey aa = authKey ab)
-    (hpa : isAbs (split a).path = true) (hpb : isAbs (split b).path = true)
+    (hpa : isAbs (split a).path = true) (hpb : isAbs (split b).path = true ∨ (split b).path = [])
     (hnsp : (((split a).query.isSome || (split a).fragment.isSome) &&
       some (renderRel
         (((Ref.dropCommon (nsegs (split a).path) (nsegs (Path.parent_or_empty (split b).path))).2.map fun _ => segDotDot) ++
@@ -335,9 +335,23 @@ theorem relative_to_explicit (oka : Grammar.OkAuth G) (we : Grammar.OkWE G) (a b
     have hws : ∀ s ∈ nsegs (split a).path, wellEscaped s = true := nsegs_we _ hweA
     have hwb : ∀ s ∈ nsegs (Path.parent_or_empty (split b).path), wellEscaped s = true := nsegs_we _ (hpw hweO)
     rw [dropCommonPanics_false _ _ hws hwb]
-    have habs2 : (Path.is_absolute (split a).path == Path.is_absolute (split b).path) = true := by
-      rw [is_absolute_eq, is_absolute_eq, hpa, hpb]; rfl
-    simp only [habs2, Bool.and_false, Bool.false_eq_true, if_false, if_true]
+    -- with an empty base path the directory has no segment and nothing is dropped: the same pair
+    have hpair : (if (Path.is_absolute (split a).path == Path.is_absolute (split b).path) = true then
+          Ref.dropCommon (nsegs (split a).path) (nsegs (Path.parent_or_empty (split b).path))
+        else (nsegs (split a).path, nsegs (Path.parent_or_empty (split b).path)))
+        = Ref.dropCommon (nsegs (split a).path) (nsegs (Path.parent_or_empty (split b).path)) := by
+      rcases hpb with hpb | hpb
+      · have : (Path.is_absolute (split a).path == Path.is_absolute (split b).path) = true := by
+          rw [is_absolute_eq, is_absolute_eq, hpa, hpb]; rfl
+        simp only [this, if_true]
+      · rw [hpb]
+        have h1 : (Path.is_absolute (split a).path == Path.is_absolute ([] : Text)) = false := by
+          rw [is_absolute_eq, hpa]; rfl
+        have h2 : nsegs (Path.parent_or_empty ([] : Text)) = [] := by decide
+        simp only [h1, Bool.false_eq_true, if_false, h2]
+        cases nsegs (split a).path <;> rfl
+    simp only [Bool.and_false, Bool.false_eq_true, if_false]
+    rw [hpair]
     generalize hd : Ref.dropCommon (nsegs (split a).path) (nsegs (Path.parent_or_empty (split b).path)) = d at hnsp
     obtain ⟨ss, bs⟩ := d
     simp only [] at hnsp ⊢
@@ -416,7 +430,7 @@ theorem relative_roundtrip (oka : Grammar.OkAuth G) (we : Grammar.OkWE G) (a b a
     (ha : Matches G.full a) (hb : Matches G.full b)
     (hsch : (split a).scheme = (split b).scheme)
     (haa : (split a).authority = some aa) (hab : (split b).authority = some ab) (hauth : authKey aa = authKey ab)
-    (hpa : isAbs (split a).path = true) (hpb : isAbs (split b).path = true)
+    (hpa : isAbs (split a).path = true) (hpb : isAbs (split b).path = true ∨ (split b).path = [])
     (hnsp : (((split a).query.isSome || (split a).fragment.isSome) &&
       some (renderRel
         (((Ref.dropCommon (nsegs (split a).path) (nsegs (Path.parent_or_empty (split b).path))).2.map fun _ => segDotDot) ++
@@ -439,19 +453,24 @@ theorem relative_roundtrip (oka : Grammar.OkAuth G) (we : Grammar.OkWE G) (a b a
   have hweA : wellEscaped (split a).path = true := path_we G we _ vA
   have hweB : wellEscaped (split b).path = true := path_we G we _ vB
   obtain ⟨hpw, hpp⟩ := parent_or_empty_props (split b).path
-  obtain ⟨q, hqb⟩ : ∃ q, (split b).path = cSlash :: q := by
-    cases hpp' : (split b).path with
-    | nil => rw [hpp'] at hpb; simp [isAbs] at hpb
-    | cons c t =>
-      rw [hpp'] at hpb
-      have : c = cSlash := by simpa [isAbs] using hpb
-      exact ⟨t, by rw [this]⟩
+  have hBab : (split b).path = [] ∨ ∃ q, (split b).path = cSlash :: q := by
+    rcases hpb with hpb | hpb
+    · right
+      cases hpp' : (split b).path with
+      | nil => rw [hpp'] at hpb; simp [isAbs] at hpb
+      | cons c t =>
+        rw [hpp'] at hpb
+        have : c = cSlash := by simpa [isAbs] using hpb
+        exact ⟨t, by rw [this]⟩
+    · exact .inl hpb
   -- the normalised directory of the base is the start of the walk
   have he0 : nsegs (Path.parent_or_empty (split b).path) = nsegsOf true (segs (split b).path).dropLast := by
-    rw [hqb]
-    obtain ⟨⟨k, hk⟩, habs, _⟩ := parent_segs q
-    unfold nsegs
-    rw [habs, hk, nsegsOf_dots]
+    rcases hBab with e | ⟨q, hqb⟩
+    · rw [e]; decide
+    · rw [hqb]
+      obtain ⟨⟨k, hk⟩, habs, _⟩ := parent_segs q
+      unfold nsegs
+      rw [habs, hk, nsegsOf_dots]
   obtain ⟨ca, cb, hA, hB, hcab⟩ := dropCommon_spec (nsegs (split a).path) (nsegs (Path.parent_or_empty (split b).path))
     (nsegs_we _ hweA) (nsegs_we _ (hpw hweB))
   generalize hd : Ref.dropCommon (nsegs (split a).path) (nsegs (Path.parent_or_empty (split b).path)) = d at hrel er' hrem hA hB
@@ -527,7 +546,6 @@ theorem relative_roundtrip (oka : Grammar.OkAuth G) (we : Grammar.OkWE G) (a b a
     (by rw [hsplit]; exact hRne) (by rw [hsplit]; exact hrelp) hab (by rw [hsplit]; exact hsk)
   refine ⟨R, _, hrel, hres, ?_⟩
   -- the target
-  have hBab : (split b).path = [] ∨ ∃ q, (split b).path = cSlash :: q := .inr ⟨q, hqb⟩
   have hrd := removeDots_merge (split b).path (renderRel L) hBab hRne hsk
   -- the walk
   have hwalk : walk (nsegsOf true (segs (split b).path).dropLast) (splitSlash (renderRel L)) = cb ++ ss := by
